@@ -226,6 +226,33 @@ func (e *e1) resolveCas(op *Op, d Doc) {
 	}
 	if op.Kind == "SetWithMeta" || op.Kind == "DeleteWithMeta" {
 		op.NewCas = e.maxCas + 1 + uint64(op.Amt)
+		if op.Amt%5 == 4 && op.Handle != 9 {
+			// the caller-chosen CAS is one that ANOTHER key of the collection carried earlier (as a
+			// replicated mutation may): conditional writes holding that stale CAS must still fail
+			current := map[uint64]bool{}
+			for _, od := range e.docs[op.Coll] {
+				current[od.Cas] = true
+			}
+			var ks []string
+			for k := range e.casHist {
+				ks = append(ks, k)
+			}
+			sort.Strings(ks)
+			prefix := fmt.Sprintf("%d/", op.Coll)
+		pick:
+			for _, k := range ks {
+				if !strings.HasPrefix(k, prefix) || k == e.key(op.Coll, op.Key) {
+					continue
+				}
+				for _, c := range e.casHist[k] {
+					if c != 0 && !current[c] {
+						op.NewCas = c
+						e.probe("withmeta.reuses-stale-cas")
+						break pick
+					}
+				}
+			}
+		}
 	}
 }
 
@@ -809,7 +836,15 @@ func (e *e1) doBackfill(op *Op) *Violation {
 		start = 2
 	}
 	e.feedN++
+	firedBefore := e.armFaults()
 	f, err := e.w.StartFeed(0, op.Coll, fmt.Sprintf("dump%d", e.feedN), start, true, op.WOpt == 1, "", nil)
+	vfs.ClearFaults()
+	if kind := e.faultFired(firedBefore); kind != "" && err != nil && ioFailure(&Res{Err: classify(err), ErrText: err.Error()}) {
+		// the backfill query was hit by an injected failure and the call said so: no feed was started
+		e.probe("fault.backfill-failed:" + kind)
+		synctest.Wait()
+		return nil
+	}
 	if err != nil {
 		return e.violate([]string{"C09"}, "backfill.start", "step %d: starting a dump feed failed: %v", e.step, err)
 	}
@@ -886,9 +921,21 @@ func (e *e1) doPurge(op *Op) *Violation {
 			}
 		}
 	}
+	via := e.w.Handles[0]
+	var fresh *rosmar.Bucket
+	if op.Dur%3 == 0 && e.w2 == nil {
+		// through a brand-new handle of the bucket, which has not opened a single collection yet
+		if b, err := rosmar.OpenBucket(e.w.URL, e.w.Name, rosmar.CreateOrOpen); err == nil {
+			fresh, via = b, b
+			e.probe("purge.through-fresh-handle")
+		}
+	}
 	firedBefore := e.armFaults()
-	r := Exec(nil, e.w.Handles[0], op, nowUnix(), &e.ctx)
+	r := Exec(nil, via, op, nowUnix(), &e.ctx)
 	vfs.ClearFaults()
+	if fresh != nil {
+		fresh.Close(context.Background())
+	}
 	synctest.Wait()
 	e.logf("#%d Purge -> %s count=%d (want %d)", e.step, r, r.Count, want)
 	if kind := e.faultFired(firedBefore); kind != "" && ioFailure(&r) {
@@ -965,8 +1012,8 @@ func (e *e1) doReopen(op *Op) *Violation {
 		time.Sleep(time.Duration(downtime) * time.Second)
 	}
 	mode := rosmar.OpenMode(rosmar.ReOpenExisting)
-	if !e.p.OnDisk {
-		mode = rosmar.CreateOrOpen // the data of an in-memory bucket outlives its handles
+	if !e.p.OnDisk || op.Dur%2 == 1 {
+		mode = rosmar.CreateOrOpen // the data of an in-memory bucket outlives its handles; on disk both modes must do
 	}
 	if restart {
 		// a new process: empty registry, a hybrid clock that remembers nothing, and a wall clock
@@ -980,7 +1027,18 @@ func (e *e1) doReopen(op *Op) *Violation {
 		// this bucket: after a restart only what it committed itself is a lower bound
 		e.maxIssued = e.maxBucketCas
 	}
+	if op.Dur%7 == 3 && !e.anyExpiry() {
+		// one statement of the open fails: the caller tries again. (Not when some document carries an
+		// expiry: the reopened bucket may start its sweep at once, on another goroutine, and a denied
+		// statement THERE is not an error rosmar returns to anybody - doExpiration panics.)
+		ArmStmtFault(1 + op.Dur%25)
+	}
 	b, err := rosmar.OpenBucket(e.w.URL, e.w.Name, mode)
+	DisarmStmtFault()
+	if err != nil && injectedFailure(&Res{Err: EOther, ErrText: err.Error()}) {
+		e.probe("fault.open-failed")
+		b, err = rosmar.OpenBucket(e.w.URL, e.w.Name, mode)
+	}
 	if err != nil {
 		return e.violate([]string{"C13", "C10"}, "reopen.open", "step %d: reopening the bucket failed: %v", e.step, err)
 	}
@@ -1011,6 +1069,14 @@ func (e *e1) doReopen(op *Op) *Violation {
 		// whatever came due while the bucket was closed must be expired shortly after the reopen
 		if v := e.doAdvance(&Op{Kind: "Advance", Dur: 7, WOpt: 1}); v != nil {
 			v.Msg = "after a close, " + fmt.Sprint(downtime) + " s of downtime and a reopen: " + v.Msg
+			return v
+		}
+	} else {
+		// a document whose expiry time had been reached (but which the sweep, armed in whole seconds
+		// from the write, had not reached yet) is swept as soon as the bucket is open again - possibly
+		// before any feed is registered: look at the documents themselves (zero time passes)
+		if v := e.doAdvance(&Op{Kind: "Advance", Dur: 0, WOpt: 1}); v != nil {
+			v.Msg = "right after a close and reopen: " + v.Msg
 			return v
 		}
 	}
@@ -1150,6 +1216,12 @@ func (e *e1) doAdvance(op *Op) *Violation {
 	for ci, docs := range e.docs {
 		for _, k := range e.allKeys() {
 			if why, tags, what := e.readKey(e.w.Colls[0][ci], e.w.Handles[0], docs, ci, k); why != "" {
+				if d := docs[k]; d.HasBody && d.Exp != 0 && d.Exp <= now {
+					// its expiry time has passed and it reads differently, yet the collection's feed was told
+					// nothing: a mutation (the sweep's deletion) without its event
+					tags = append(tags, "C08")
+					why += " (no deletion event reached the feed of the collection)"
+				}
 				return e.violate(append(tags, "C14"), "expiry.readback."+what, "step %d after %d s passed: %s", e.step, op.Dur, why)
 			}
 		}
@@ -1275,6 +1347,18 @@ func (e *e1) doEnsureColl(op *Op) *Violation {
 	}
 	e.probe("collection.ensured")
 	return nil
+}
+
+// anyExpiry: does any document (or tombstone) of the bucket carry, or possibly carry, an expiry?
+func (e *e1) anyExpiry() bool {
+	for _, docs := range e.docs {
+		for _, d := range docs {
+			if d.Exp != 0 || d.ExpAny {
+				return true
+			}
+		}
+	}
+	return false
 }
 
 // armFaults plants the faults planned for the current step; returns the fired-counters before.
